@@ -170,8 +170,26 @@ void c07_run(Tape& t, Ctx& ctx, Opt& opt, const TM& tm, const Problem& p, unsign
   auto fd_dir = [&](const Eigen::VectorXd& dir, ld analytic, const std::string& name) -> bool {
     double h = pow2i(-12);
     auto Dh = [&](double hh) { Eigen::VectorXd yp = x + hh * dir, ym = x - hh * dir; return (cost_at(yp) - cost_at(ym)) / (2 * (ld)hh); };
-    ld d1 = Dh(h), d2 = Dh(h / 2);
-    ld r = (4 * d2 - d1) / 3, e = fabsl(d2 - d1);
+    // three levels per rung: the Richardson value is trusted only where the differences shrink like h^2 (successive differences fall by
+    // at least 2.5); otherwise the rung is not yet in the asymptotic regime (steep costs: the h^4 term can cancel the h^2 term at
+    // one step size and make |D(h/2) - D(h)| small by accident) and the ladder moves down by a factor 4, at most three times
+    ld d1 = 0, d2 = 0, d3 = 0, e = 0;
+    for (int rung = 0; rung < 4; ++rung) {
+      d1 = Dh(h); d2 = Dh(h / 2); d3 = Dh(h / 4);
+      ld e1 = fabsl(d2 - d1), e2 = fabsl(d3 - d2);
+      e = e2;
+      ld noise = (8 * (ld)DBL_EPSILON + noise_rel) * (ld)Cabs / (h / 4);
+      if (e2 * 2.5L <= e1 || e1 <= noise) break;     // converging as it should, or already at rounding level
+      e = std::max(e1, e2);
+      if (rung < 3) h /= 4;
+    }
+    ld r = (4 * d3 - d2) / 3;
+    h /= 2;   // the noise term below refers to the finest step used, h/4 of this rung
+    if (ctx.verbose && std::getenv("VERIF_DEBUG_FD")) {   // replay-only diagnostics: the difference quotients at a ladder of steps
+      std::fprintf(stderr, "fd %s analytic %.12Lg:", name.c_str(), analytic);
+      for (int k = 6; k <= 20; k += 2) std::fprintf(stderr, " D(2^-%d)=%.12Lg", k, Dh(pow2i(-k)));
+      std::fprintf(stderr, "\n");
+    }
     ld eta = (8 * (ld)DBL_EPSILON + noise_rel) * (ld)Cabs / (h / 2);
     ld slack = 2 * e + eta;
     if (slack > 1e-6L * scale) ctx.label(2 * e > eta ? "fd:loose(truncation)" : "fd:loose(rounding)"); else ctx.label("fd:tight");
